@@ -1,7 +1,7 @@
 //! C03 — the verifier's verdict equals the unbatched Bulletproofs verification relations.
 use crate::choices::Choices;
 use crate::curves::{Curve, CurveTag};
-use crate::drive::{bp_gens, prog_pc, run_prover, run_verifier, ProveOpts, VerifyOpts};
+use crate::drive::{bp_gens, prog_pc, run_batch, run_prover, run_verifier, BatchMember, ProveOpts, VerifyOpts};
 use crate::mirror::ProofMirror;
 use crate::program::{gen_program, Cap, GenCfg, Op, Program, Sc, Var, CLABELS};
 use crate::props::c02::gen_bad;
@@ -339,6 +339,32 @@ fn case<G: CurveTag>(bytes: &[u8], col: &mut Collector, large: bool, wide: bool)
             }
             col.note("verifier stopped before the challenges although (a) holds; judged with the harness's own transcript");
             return Ok(());
+        }
+    }
+    // batch verification is verification too: what the relations reject must be rejected in a
+    // batch (alone, beside an accepted proof), and two proofs whose errors are equal and
+    // opposite (final scalar a shifted by ±d: never absorbed, so all challenges coincide)
+    // must not cancel
+    if bytes.first().map(|b| b % 4 == 0).unwrap_or(false) && prog.pc == 0 {
+        if r.accept() == Some(false) {
+            let solo = run_batch::<G>(&[BatchMember { prog: &prog, commitments: &p.commitments, proof: &real_proof }], 256, 8);
+            if matches!(solo.0, Some(Ok(()))) {
+                return Err(Failure::new(format!("C03:{}:batch-accepts", r.class()), format!("the relations say {} but batch_verify accepts the proof ({})", r.class(), label), what()));
+            }
+            col.class("batch:rejected-proof-alone");
+        }
+        if r.accept() == Some(true) {
+            let d: Fr<G> = ScalarSpec::gen_nonzero(&mut chi).to_f();
+            let (mut mp, mut mm) = (mirror.clone(), mirror.clone());
+            mp.ipp.a += d;
+            mm.ipp.a -= d;
+            if let (Ok(pp), Ok(pm)) = (mp.to_real(), mm.to_real()) {
+                let pair = run_batch::<G>(&[BatchMember { prog: &prog, commitments: &p.commitments, proof: &pp }, BatchMember { prog: &prog, commitments: &p.commitments, proof: &pm }], 256, 9);
+                if matches!(pair.0, Some(Ok(()))) {
+                    return Err(Failure::new("C03:reject:c-only:batch-accepts-cancelling-pair", "two proofs that each violate the inner-product relation (a ± d) are accepted together by batch_verify".to_string(), what()));
+                }
+                col.class("batch:cancelling-pair");
+            }
         }
     }
     if let Some((b, c)) = bc_hold_note {
